@@ -548,7 +548,7 @@ def check_c03(pid, tier, seed, replay=None):
     scs = []
     base = ['B','C','D','E','I','N','K','T','H'] + ([] if quick else ['A','J','L','P','Q','R','S','M'])
     npg = {'B':45,'C':9,'D':9,'E':40,'I':9,'N':12,'K':60,'T':12,'H':30,'A':10,'J':40,'L':25,'P':40,'Q':20,'R':30,'S':60,'M':60}
-    nfiles = 320 if quick else 24000
+    nfiles = 320 if quick else 7000
     for i in range(nfiles):
         b = base[i % len(base)]
         key = f'Z{i}'
